@@ -6,6 +6,9 @@ S=/tmp/scr_main/repo
 mkdir -p /tmp/scr_main
 rsync -a --delete --exclude target --exclude .git /repo/ $S/ || exit 2
 (cd $S && patch -p1 -s < "$PATCH") || { echo "patch failed"; exit 2; }
+# rsync restores old mtimes: cargo would not notice that a file changed back. Touch every source file so that
+# every crate is rebuilt from what is on disk now (no stale mutant from an earlier run can survive).
+find $S -name "*.rs" -not -path "*/target/*" -exec touch {} +
 for c in "$@"; do
   VERIF_REPO=$S /verif/check $c --tier quick > /tmp/scr_main/$c.log 2>&1
   rc=$?
